@@ -264,6 +264,8 @@ def oracleRet (r : Run) (ln : Nat) (actor kind : String) : Run := Id.run do
 def oracleEnd (r : Run) (ln : Nat) (result : String) (nilIds : List Nat) : Run := Id.run do
   let mut r := r
   if result = "deadlock" then r := setSpec r ln "deadlock: some goroutine is blocked for ever"
+  if result = "hang" then r := setSpec r ln "hang: the run does not finish (a goroutine spins or blocks for ever)"
+  if result = "cutoff" then r := setSpec r ln "step cutoff reached: livelock suspected"
   if result = "quiescent" ∧ ¬ r.emptyAdd ∧ ¬ r.idxWrap ∧ ¬ r.panicked then
     let o := r.last
     if o.al = 1 ∧ ¬ r.died then
@@ -308,12 +310,12 @@ def finishRun (t : Tot) (r : Run) (result : String) (stepsS preS : String) (out 
     firstConf := if t.firstConf = "" then (match r.conf with | some m => s!"run {r.k} line {m}" | none => "") else t.firstConf,
     firstSpec := if t.firstSpec = "" then (match r.spec with | some m => s!"run {r.k} line {m}" | none => "") else t.firstSpec }
 
-partial def loop (h : IO.FS.Stream) (out : IO.FS.Stream) (ln : Nat) (r : Run) (t : Tot) (nilIds : List Nat) : IO Tot := do
+partial def loop (noModel : Bool) (h : IO.FS.Stream) (out : IO.FS.Stream) (ln : Nat) (r : Run) (t : Tot) (nilIds : List Nat) : IO Tot := do
   let line ← h.getLine
   if line.isEmpty then return { t with lines := ln }
   let line := line.trimAscii.toString
   let ln := ln + 1
-  if line.isEmpty || line.startsWith "#" || line.startsWith "summary" then loop h out ln r t nilIds
+  if line.isEmpty || line.startsWith "#" || line.startsWith "summary" then loop noModel h out ln r t nilIds
   else
   let (pre, post) := match line.splitOn " | " with
     | [a, b] => (a, b)
@@ -330,8 +332,10 @@ partial def loop (h : IO.FS.Stream) (out : IO.FS.Stream) (ln : Nat) (r : Run) (t
       | some w => ((w.drop 3).toString.splitOn ".").filterMap (·.toNat?)
       | none => []
     let r' : Run := { k := k.toNat?.getD 0, active := true, size := size,
-                      model := { init size with idx := idxN }, idxWrap := false }
-    loop h out ln r' t nil'
+                      model := { init size with idx := idxN }, idxWrap := false,
+                      conf := if noModel then some "0:model comparison switched off (hook-free stress mode)" else none,
+                      staleClosed := noModel }
+    loop noModel h out ln r' t nil'
   | ["new", name, "add", n] =>
     let n := n.toNat?.getD 0
     let ids := List.range' r.nextId n
@@ -340,18 +344,18 @@ partial def loop (h : IO.FS.Stream) (out : IO.FS.Stream) (ln : Nat) (r : Run) (t
     let r := { r with model := m, phases := r.phases.insert name (.adder r.nAdders), nAdders := r.nAdders + 1,
                       nextId := r.nextId + n, adds := r.adds.insert name { ids := ids }, addOrder := r.addOrder ++ [name],
                       emptyAdd := r.emptyAdd || n == 0, idxWrap := r.idxWrap || wraps }
-    loop h out ln r t nilIds
+    loop noModel h out ln r t nilIds
   | ["new", name, "close"] =>
     let m := match step r.model .close with | some s => s | none => r.model
-    loop h out ln { r with model := m, phases := r.phases.insert name (.closer (some .cas)) } t nilIds
+    loop noModel h out ln { r with model := m, phases := r.phases.insert name (.closer (some .cas)) } t nilIds
   | ["new", name, "die"] =>
-    loop h out ln { r with phases := r.phases.insert name .env } t nilIds
+    loop noModel h out ln { r with phases := r.phases.insert name .env } t nilIds
   | "s" :: actor :: site :: extra =>
     let o := parseObs ((post.splitOn " ").filter (· ≠ ""))
     let r := modelStep r ln actor site extra o
     let r := oracleStep r ln actor site extra o
     let t := { t with sites := t.sites.insert site (t.sites.getD site 0 + 1) }
-    loop h out ln { r with steps := r.steps + 1 } t nilIds
+    loop noModel h out ln { r with steps := r.steps + 1 } t nilIds
   | ["ret", actor, kind] =>
     -- the model must agree that the call has returned
     let r := if r.conf.isSome then r else
@@ -373,18 +377,18 @@ partial def loop (h : IO.FS.Stream) (out : IO.FS.Stream) (ln : Nat) (r : Run) (t
       | some (.tail (some pc)) => setConf r ln s!"{actor} returned, model tail worker still at {repr pc}"
       | some .loop => setConf r ln s!"{actor} returned, model loop worker at {repr r.model.wpc}"
       | _ => r
-    loop h out ln (oracleRet r ln actor kind) t nilIds
+    loop noModel h out ln (oracleRet r ln actor kind) t nilIds
   | "end" :: _ :: result :: rest =>
     let r := modelEnd r ln result
     let r := oracleEnd r ln result nilIds
     let t ← finishRun t r result (rest.headD "") (rest.getD 1 "") out
-    loop h out ln {} t nilIds
-  | _ => loop h out ln r t nilIds
+    loop noModel h out ln {} t nilIds
+  | _ => loop noModel h out ln r t nilIds
 
-def main (path : String) : IO UInt32 := do
+def main (path : String) (noModel : Bool) : IO UInt32 := do
   let h ← IO.FS.Handle.mk path .read
   let out ← IO.getStdout
-  let t ← loop (IO.FS.Stream.ofHandle h) out 0 {} {} []
+  let t ← loop noModel (IO.FS.Stream.ofHandle h) out 0 {} {} []
   let sites := (t.sites.toList.map fun (k, v) => s!"{k}:{v}").toArray.qsort (· < ·) |>.toList
   out.putStrLn s!"SUMMARY runs={t.runs} conf_fail={t.confFail} spec_fail={t.specFail} out_of_contract={t.outOfContract} quiescent={t.quiescent} kf_close_early={t.kfCloseEarly} kf_close_stale={t.kfCloseStale} lines={t.lines} sites={",".intercalate sites}"
   if t.firstConf ≠ "" then out.putStrLn s!"FIRSTCONF {t.firstConf}"
